@@ -3,6 +3,7 @@
 package main
 
 import (
+	"fmt"
 	"time"
 	"path/filepath"
 	"os"
@@ -123,6 +124,20 @@ func genC20(tier string, r *rng) {
 	}
 	for k := 0; k < n; k++ {
 		add(randInfo(0))
+	}
+	// deep trees: a chain of d nested items (generic ASN.1 data nests without limit), attributes at the bottom and on the way
+	for _, d := range []int{5, 16, 31, 32, 33, 40, 63, 64, 65, 100} {
+		leaf := file.Info{Description: "leaf", Attributes: []file.Attribute{{Name: "n", Value: "v"}}}
+		cur := leaf
+		for k := 0; k < d; k++ {
+			parent := file.Info{Description: fmt.Sprintf("level %d", d-k), Children: []file.Info{cur}}
+			if k%7 == 0 {
+				parent.Attributes = []file.Attribute{{Name: "a", Value: "b"}}
+				parent.Children = append(parent.Children, file.Info{Description: "sibling"})
+			}
+			cur = parent
+		}
+		add(cur)
 	}
 	outs := printInfoBatch(lines)
 	for k, l := range lines {
